@@ -18,30 +18,30 @@ CHECKS = {
                 text="Exhaustive breadth-first exploration of the implementation's own state graph (two or three real "
                      "controllers, model kernel, all delivery orders, bounded duplicates/losses/timeouts/triggers) with "
                      "table, routing and status monitors on every transition, plus an exhaustive header SPI/flag "
-                     "injection sweep on representative states."),
+                     "injection sweep on representative states. State monitor on the loss / time-out scenario: once every timer has run out no IKE_SA is left waiting or DELETED; header-only IKE_SA_INIT requests (any flags / SPIs) must not touch the IKE_SAs already held."),
     'C09': dict(level='model_checking', technique=MC, engine='world-explorer',
                 text="Exhaustive exploration of all interleavings of the local triggers (acquire, soft/hard expire, IKE "
                      "rekey/delete/DPD due) at both real endpoints with every delivery order (and one loss/duplicate), "
                      "three configurations (matching, INVALID_KE paths, refusing policies); on every transition: no "
                      "escape from main_loop, reference transition relation, RFC 7296 2.25 notifications; from every "
-                     "state a lossless drain must end without outstanding request and with equal IKE_SA / CHILD_SA sets."),
+                     "state a lossless drain must end without outstanding request and with equal IKE_SA / CHILD_SA sets. Further monitors: M-queue (local events queued behind an exchange are replayed when its response is in), converse M-coll clause (no TEMPORARY_FAILURE while idle); scenarios with retransmission time-outs, simultaneous initiation (two IKE_SAs per endpoint) and rekey-after-refused-rekey histories."),
     'C10': dict(level='model_checking', technique=MC + " + exhaustive kernel-fault enumeration", engine='world-explorer',
                 text="The C09 state space with the model SAD compared with the tracked CHILD_SAs after every transition "
                      "and after a drain from every state, plus one re-execution of every transition per XFRM_MSG_NEWSA "
-                     "request with that request refused (ENOMEM, EEXIST)."),
+                     "request with that request refused (ENOMEM, EEXIST). Also: every transition re-executed once per NEWSA / DELSA request with the netlink socket itself failing (OSError), followed by a timer sweep and a drain; and at every state of two smaller spaces what a peer other than pyikev2 may send (an authentic DELETE of any CHILD_SA on any IKE_SA held, a datagram arriving from another source address). M-del: a CHILD_SA deletion is only ever started for a reason."),
     'C08': dict(level='model_checking', technique=MC, engine='world-explorer',
                 text="Per exchange kind (IKE_AUTH, CREATE_CHILD_SA new/rekey/IKE rekey incl. the INVALID_KE retry, "
                      "INFORMATIONAL delete child/IKE, DPD) and initiating role: every schedule of deliver / duplicate / "
                      "drop / reorder / retransmission time-out and one re-sent old datagram; window oracle on every "
                      "delivery (executed iff expected ID; previous ID -> byte-identical cached reply and no other "
                      "effect; else inert; responses only for the outstanding request) and header/ID oracle on every "
-                     "emission."),
+                     "emission. What is outstanding is read off the wire, not off IkeSa.request; the first copy of the answer to the outstanding request must have an effect. IKE_SA_INIT scenarios (plain, INVALID_KE retry, COOKIE) included."),
     'C20': dict(level='model_checking', technique=MC + "; log monitor on every transition", engine='world-explorer',
                 text="The C09 state space (three configurations incl. refusals), every transition re-executed with each "
                      "kernel request refused (internal-error branches), and failing handshakes (wrong PSK / identity / "
                      "method, no proposal, TS unacceptable): every record at INFO or above and everything written to "
                      "stderr is searched for every secret the harness knows (PSK, SKEYSEED recomputed independently, "
-                     "SK_*, CHILD keys, DH secrets) raw, hex and repr; a verbose run proves the scanner finds each kind."),
+                     "SK_*, CHILD keys, DH secrets) raw, hex and repr; a verbose run proves the scanner finds each kind. Plus situations in which the daemon has something unusual to report (peer configured for another local address, PRF change across a rekey)."),
     'C13': dict(level='fault_enumeration', technique="exhaustive enumeration of loss patterns, tick sequences and crash "
                 "points over deterministic runs of the two real daemons under a virtual clock", engine='world-explorer',
                 text="Every request kind (14, incl. COOKIE / INVALID_KE retries and the delete after an IKE rekey) x every "
@@ -56,7 +56,7 @@ CHECKS = {
                      "type x request/response x Message ID relative to the window x body, bit flips / truncations / "
                      "extension of authentic messages, the same plaintext under other keys, reflection - each injected "
                      "through main_loop on a fork; the endpoint's complete snapshot (state, counters, CHILD_SAs, timers, "
-                     "cached response, kernel SAD, netlink log) must be unchanged and nothing may be emitted."),
+                     "cached response, kernel SAD, netlink log) must be unchanged and nothing may be emitted. Every notification type the state machine reacts to is also injected alone in the clear (exchange x direction, expected ID)."),
     'C17': dict(level='fault_enumeration', technique="exhaustive injection of a hostile corpus and of send / netlink "
                 "failures at every position of a legitimate session run through the real main_loop", engine='world-explorer',
                 text="Before every step of a legitimate two-endpoint session (initial exchanges, new CHILD, CHILD rekey, "
@@ -67,19 +67,19 @@ CHECKS = {
                      "and truncated netlink frames; sendto (gaierror / ENETUNREACH / EPERM) and netlink failures at "
                      "every call index. Oracle: main_loop is left only by the harness's stop exception, executed lines "
                      "per iteration stay under a cap, and the session completes (or, where the peer itself misbehaved, "
-                     "a fresh negotiation succeeds after the time-outs)."),
+                     "a fresh negotiation succeeds after the time-outs). Also: 180 orders of the legitimate operations run without hostile input, genuine CREATE_CHILD_SA requests re-protected with other SPI sizes, a blind-sender clause (input naming no SPI in use must not disturb the session even from the peer's address), and a per-iteration watchdog so that a hanging daemon is reported and cannot hang the check."),
     'C04': dict(level='exploration', technique=EX + " (wire-only observer re-deriving every key)",
                 text="Real two-endpoint exchanges for every PRF x INTEG x AES length x DH group, every CHILD suite with "
                      "and without PFS, rekey chains, nonce lengths / patterns and DH values with leading zero octets "
                      "(forced exponents); an observer that sees only the datagrams and the DH exponents re-derives "
                      "SKEYSEED, SK_*, KEYMAT and compares with IkeSa.ike_sa_keyring and the keys inside XFRM_MSG_NEWSA; "
-                     "prf+ for all output lengths; MODP primes derived from their defining formula; RFC 5903 vectors."),
+                     "prf+ for all output lengths; MODP primes derived from their defining formula; RFC 5903 vectors. Also crossing CREATE_CHILD_SA exchanges (with and without PFS, on a rekeyed IKE_SA) and INVALID_KE_PAYLOAD retries in IKE_SA_INIT, CREATE_CHILD_SA and IKE_SA rekey for pairs of groups."),
     'C11': dict(level='exploration', technique=EX,
                 text="Complete products of local policies x peer proposals (incl. foreign ids, key-length variants, "
                      "two-proposal payloads) for Proposal.intersection / is_subset / _select_best_sa_proposal against a "
                      "declarative reference; 512+ real handshakes over all pairs of ENCR/DH preference lists at IKE and "
                      "CHILD level incl. NO_PROPOSAL_CHOSEN and the INVALID_KE_PAYLOAD round; 190 one-step rewrites of "
-                     "authentic responses by a tampering responder."),
+                     "authentic responses by a tampering responder. The end-to-end pairs continue through a history (two rekeys, negotiations started by the other side, IKE_SA rekey, one more CHILD_SA), each judged against the configured policies, with the clause that what is offered is the configured policy; PFS on one side only; an initiator that is not pyikev2 (several proposals per request with decoys before / after the genuine one) and responses with reordered transforms."),
     'C14': dict(level='exploration', technique=EX + " (decoder compiled against the kernel UAPI headers)",
                 text="Every netlink request the Xfrm API emits over the full product of the selector region and "
                      "pairwise-complete crosses with the other regions is decoded by a C program using <linux/xfrm.h> "
